@@ -130,6 +130,8 @@ def opsBlocks (op : String) (a : List Val) : Option Val :=
       pure (toVal (r.map fun (c, m, w) => [c, m, w]))
   | "v2w" => do
       pure (toVal (varianceToWeights (← optRats (← a[0]?))))
+  | "v2w_tol" => do      -- explicit tolerance (exact rational of the double passed to the implementation)
+      pure (toVal (varianceToWeights (← optRats (← a[0]?)) (← argAt Rat a 1)))
   | _ => none
 
 def opsWindows (op : String) (a : List Val) : Option Val :=
